@@ -576,13 +576,29 @@ def ft5(F, R):
             R.ok(fn, arm + ":bounded", "every Ok return of the %s arm is preceded by `current < end_cluster` (product states %d)" % (arm, n))
 
 
-@rule("FT7", ["C05", "C16"], floor=4,
-      doc="free-count pairing: in truncate_cluster_chain every update_fat(.., EMPTY) is followed by exactly one free_clusters_count += 1 before the next EMPTY event or the Ok return; in alloc_cluster the END_OF_FILE mark is paired with exactly one -= 1 on every Ok path; no other writer of the field besides mount")
-def ft7(F, R):
-    fn = F.fn(FATVOL + "::truncate_cluster_chain")
+def _count_writers(F):
+    writers = set()
+    for f in F.fns:
+        for b, i, s in f.stmts():
+            if s["k"] == "Assign" and s["p"]["proj"] and "free_clusters_count" in [e[2] for e in f.canon_place(s["p"])["proj"] if e[0] == "field"]:
+                writers.add(f.npath)
+            if s["k"] == "Assign" and s["rv"]["k"] == "Ref" and s["rv"].get("mut") and "free_clusters_count" in [e[2] for e in s["rv"]["p"]["proj"] if e[0] == "field"]:
+                writers.add(f.npath)
+    return writers
 
-    def count_events(fn_, delta_op):
-        def classify(kind, payload):
+
+@rule("FT7", ["C05", "C16"], floor=4,
+      doc="free-count pairing: in every function that updates free_clusters_count (besides mount) each update_fat(.., EMPTY) is followed by exactly one +1 before the next EMPTY event or the Ok return, each update_fat(.., END_OF_FILE) allocation by exactly one -1 on every Ok path, and the +-1 cannot overflow (saturating/checked)")
+def ft7(F, R):
+    writers = sorted(w for w in _count_writers(F) if w != "fat::volume::parse_volume")
+    for must in (FATVOL + "::alloc_cluster", FATVOL + "::truncate_cluster_chain"):
+        if must not in writers:
+            R.bad(None, "writer:" + must.split("::")[-1], "%s does not maintain free_clusters_count" % must, kind="anchor-missing")
+    for w in writers:
+        fn = F.fn(w)
+        pairs_eof = w.endswith("::alloc_cluster")  # END_OF_FILE marks an allocation only there (truncate re-terminates an existing chain)
+
+        def classify(kind, payload, fn=fn):
             if kind == "stmt":
                 f, b, i, s = payload
                 e = ret_event(f, b, s)
@@ -592,9 +608,13 @@ def ft7(F, R):
                     dst = f.term_of_place(s["p"])
                     if "free_clusters_count" in tstr(dst):
                         v = f.term_of_rvalue(s["rv"], b)
-                        if v[0] == "bin" and v[1] == delta_op and v[3][:2] == ("c", 1):
-                            return ("count", f.loc(b, i))
-                        return ("count-other", f.loc(b, i))
+                        for op, sign in (("Add", "+"), ("Sub", "-")):
+                            if v[0] == "bin" and v[1] == op and v[3][:2] == ("c", 1):
+                                return ("count", sign, "unchecked", f.loc(b, i))
+                        for nm, sign in (("saturating_add", "+"), ("saturating_sub", "-"), ("wrapping_add", "+!"), ("wrapping_sub", "-!")):
+                            if v[0] == "call" and v[1] and v[1].endswith("::" + nm) and v[2][1][:2] == ("c", 1):
+                                return ("count", sign, "safe", f.loc(b, i))
+                        return ("count-other", f.loc(b, i), tstr(v))
                 return None
             if kind == "term":
                 f, b, t = payload
@@ -609,7 +629,6 @@ def ft7(F, R):
                         if val[0] == "c" and val[2] and val[2].endswith("ClusterId::END_OF_FILE"):
                             return ("eof", f.loc(b))
                         return ("link", f.loc(b))
-                    # free_clusters_count known to be Some? handled via edges
                 return None
             if kind == "edge":
                 f, b, i, g = payload
@@ -619,96 +638,60 @@ def ft7(F, R):
                     x = try_inner(g.term)
                     if x is not None and x[0] == "call" and path_matches(x[1], "FatVolume::update_fat"):
                         return ("fat-failed",)
+                if g.kind == "bool" and g.term[0] == "call" and g.term[1] and g.term[1].endswith("Result::is_ok") and g.truth is False and "update_fat" in tstr(g.term):
+                    return ("fat-failed",)
                 return None
-        return classify
 
-    # truncate: state = (pending frees not yet counted, ret)
-    def step_t(st, e):
-        pend, ret, known = st
-        if e[0] == "ret":
-            return (pend, e[1], known)
-        if e[0] == "fat-failed":
-            return (max(pend - 1, 0) if pend else 0, ret, known)  # the failed update freed nothing
-        if e[0] == "free":
-            if pend >= 1:
-                return Bad("a cluster is freed while the previous free has not been counted (free_clusters_count would fall behind)")
-            return (pend + 1, ret, known)
-        if e[0] == "known":
-            if e[1] is False:
-                return (0, ret, False)  # count unknown: nothing to keep
-            return (pend, ret, True)
-        if e[0] == "count":
-            if pend == 0:
-                return Bad("free_clusters_count incremented without a freed cluster")
-            return (pend - 1, ret, known)
-        if e[0] == "count-other":
-            return Bad("free_clusters_count changed by something other than +1")
-        return st
+        def step(st, e, pairs_eof=pairs_eof):
+            pf, pa, ret = st
+            k = e[0]
+            if k == "ret":
+                return (pf, pa, e[1])
+            if k == "fat-failed":
+                return (0, 0, ret)
+            if k == "free":
+                if pf >= 1:
+                    return Bad("a cluster is freed while the previous free has not been added to free_clusters_count (the count falls behind by one per chain)")
+                return (pf + 1, pa, ret)
+            if k == "eof" and pairs_eof:
+                return (pf, pa + 1, ret)
+            if k == "known" and e[1] is False:
+                return (0, 0, ret)
+            if k == "count":
+                if e[1].startswith("+"):
+                    if pf == 0:
+                        return Bad("free_clusters_count incremented without a freed cluster")
+                    return (pf - 1, pa, ret)
+                if pa == 0:
+                    return Bad("free_clusters_count decremented without an allocation")
+                return (pf, pa - 1, ret)
+            if k == "count-other":
+                return Bad("free_clusters_count changed by something other than +-1 (%s)" % e[2])
+            return st
 
-    def exit_t(st, b):
-        pend, ret, known = st
-        if ret == "Ok" and pend > 0:
-            return Bad("returns Ok with %d freed cluster(s) not added to free_clusters_count" % pend)
-        return None
+        def at_exit(st, b):
+            pf, pa, ret = st
+            if ret == "Ok" and pf > 0:
+                return Bad("returns Ok with a freed cluster not added to free_clusters_count")
+            if ret == "Ok" and pa > 0:
+                return Bad("returns Ok with an allocated cluster not subtracted from free_clusters_count")
+            return None
 
-    viol, n = product(fn, count_events(fn, "Add"), step_t, (0, "none", None), exit_t)
-    for msg, trace, b in viol[:1]:
-        R.bad(fn, "truncate:pairing", msg, fn.loc(b), trace=trace[-10:])
-    if not viol:
-        R.ok(fn, "truncate:pairing", "every EMPTY event paired with +1 (product states %d)" % n)
-
-    fn2 = F.fn(FATVOL + "::alloc_cluster")
-
-    def step_a(st, e):
-        pend, ret, known = st
-        if e[0] == "ret":
-            return (pend, e[1], known)
-        if e[0] == "eof":
-            return (pend + 1, ret, known)
-        if e[0] == "known":
-            if e[1] is False:
-                return (0, ret, False)
-            return (pend, ret, True)
-        if e[0] == "count":
-            if pend == 0:
-                return Bad("free_clusters_count decremented without an allocation")
-            return (pend - 1, ret, known)
-        if e[0] == "count-other":
-            return Bad("free_clusters_count changed by something other than -1")
-        return st
-
-    def exit_a(st, b):
-        pend, ret, known = st
-        if ret == "Ok" and pend > 0:
-            return Bad("returns Ok with an allocated cluster not subtracted from free_clusters_count")
-        return None
-
-    viol, n = product(fn2, count_events(fn2, "Sub"), step_a, (0, "none", None), exit_a)
-    for msg, trace, b in viol[:1]:
-        R.bad(fn2, "alloc:pairing", msg, fn2.loc(b), trace=trace[-10:])
-    if not viol:
-        R.ok(fn2, "alloc:pairing", "END_OF_FILE mark paired with -1 on every Ok path (product states %d)" % n)
-    # other writers of the field
-    writers = set()
-    for f in F.fns:
-        for b, i, s in f.stmts():
-            if s["k"] == "Assign" and s["p"]["proj"] and "free_clusters_count" in [e[2] for e in f.canon_place(s["p"])["proj"] if e[0] == "field"]:
-                writers.add(f.npath)
-        # `ref mut n = self.free_clusters_count` then *n += 1
-        for b, i, s in f.stmts():
-            if s["k"] == "Assign" and s["rv"]["k"] == "Ref" and s["rv"].get("mut") and "free_clusters_count" in [e[2] for e in s["rv"]["p"]["proj"] if e[0] == "field"]:
-                writers.add(f.npath)
-    allowed = {FATVOL + "::alloc_cluster", FATVOL + "::truncate_cluster_chain", "fat::volume::parse_volume"}
-    extra = writers - allowed
-    R.require(not extra, None, "count-writers", "free_clusters_count written outside alloc/truncate/mount: %s" % sorted(extra), okdetail="writers: %s" % sorted(writers))
-    # overflow discharge: the +-1 must be checked/saturating or provably in range
-    for f, op in ((fn, "Add"), (fn2, "Sub")):
-        for b in f.live_blocks():
-            t = f.term(b)
-            if t["k"] == "Assert" and t["kind"].startswith("Overflow") and t["ops"]:
-                a0 = f.term_of_operand(t["ops"][0], b)
-                if "free_clusters_count" in tstr(a0):
-                    R.bad(f, "count-overflow:" + op, "`free_clusters_count %s= 1` on the untrusted on-disk count can overflow-panic (value range 0..=0xFFFFFFFE from the info sector)" % ("+" if op == "Add" else "-"), f.loc(b))
+        viol, n = product(fn, classify, step, (0, 0, "none"), at_exit)
+        short = w.split("::")[-1]
+        for msg, trace, b in viol[:1]:
+            R.bad(fn, short + ":pairing", msg, fn.loc(b), trace=trace[-10:])
+        if not viol:
+            R.ok(fn, short + ":pairing", "every EMPTY/END_OF_FILE event paired with +1/-1 (product states %d)" % n)
+        # overflow safety of each update
+        for b, i, s in fn.stmts():
+            if s["k"] == "Assign" and s["p"]["proj"] and "free_clusters_count" in tstr(fn.term_of_place(s["p"])):
+                v = fn.term_of_rvalue(s["rv"], b)
+                if v[0] == "bin" and v[1] in ("Add", "Sub"):
+                    R.bad(fn, "count-overflow:" + v[1], "`free_clusters_count %s= 1` on the untrusted on-disk count can overflow-panic (the FSInfo value may be 0 or 0xFFFFFFFE)" % ("+" if v[1] == "Add" else "-"), fn.loc(b, i))
+                elif v[0] == "call" and v[1] and ("saturating_" in v[1] or "checked_" in v[1]):
+                    R.ok(fn, "count-safe:" + v[1].split("::")[-1], "overflow-safe update %s" % tstr(v), fn.loc(b, i))
+    R.ok(None, "count-writers", "writers of free_clusters_count: %s" % writers)
 
 
 @rule("FT8", ["C05", "C16"], floor=1,
@@ -891,8 +874,8 @@ def or2(F, R):
     R.require(len(ul) == 1 and fn2.term_of_operand(ul[0][1]["args"][1], ul[0][0])[:2] == ("c", 0), fn2, "truncate-length-0", "truncate must set the length to 0", fn2.loc(ul[0][0]) if ul else None)
 
 
-@rule("OR3", ["C10"], floor=1,
-      doc="make_dir: the parent entry naming the new directory is written with its final cluster only after that cluster is allocated and initialised (dot entries written, remaining blocks zeroed)")
+@rule("OR3", ["C10"], floor=2,
+      doc="make_dir: (a) no entry naming the new directory is written to the parent before its cluster is allocated; (b) the parent entry carrying the final cluster is written only after that cluster is initialised (dot entries written / blocks zeroed)")
 def or3(F, R):
     fn = F.fn(FATVOL + "::make_dir")
 
@@ -903,32 +886,40 @@ def or3(F, R):
                 if call_matches(t, ("FatVolume::write_new_directory_entry",)):
                     return ("parent-entry", f.loc(b))
                 if call_matches(t, ("FatVolume::write_entry_to_disk",)):
-                    return ("parent-entry-update", f.loc(b))
+                    return ("parent-entry", f.loc(b))
                 if call_matches(t, ("FatVolume::alloc_cluster",)):
                     return ("alloc", f.loc(b))
                 if call_matches(t, ("BlockCache::blank_mut",)):
                     return ("init-block", f.loc(b))
         return None
 
-    def step(st, e):
+    def step_a(st, e):
+        if e[0] == "alloc":
+            return True
+        if e[0] == "parent-entry" and not st:
+            return Bad("the parent directory gets an entry for the new directory (at %s) before a cluster has been allocated for it: after a power cut the sub-directory entry has no cluster of its own (start cluster 0 is read back as the root directory)" % e[1])
+        return st
+
+    def step_b(st, e):
         alloc, init = st
         if e[0] == "alloc":
             return (True, init)
         if e[0] == "init-block":
             return (alloc, True)
-        if e[0] == "parent-entry" and not alloc:
-            return Bad("parent-entry-before-alloc")
-        if e[0] == "parent-entry-update" and not init:
-            return Bad("parent-entry-before-init")
+        if e[0] == "parent-entry" and alloc and not init:
+            return Bad("the parent entry is (re)written with the new cluster (at %s) before that cluster is initialised: after a power cut the directory exposes uninitialised cluster contents as entries" % e[1])
         return st
 
-    viol, n = product(fn, classify, step, (False, False))
-    kinds = {v[0] for v in viol}
-    if kinds:
-        tr = viol[0][1]
-        R.bad(fn, "parent-entry-last", "mkdir write order: the parent directory entry is written (%s) before the new directory's cluster is allocated and initialised; a power cut leaves a sub-directory entry without its own cluster (read back as the root) or pointing at an uninitialised cluster" % ", ".join(sorted(kinds)), fn.loc(viol[0][2]), trace=tr)
+    va, n = product(fn, classify, step_a, False)
+    vb, n2 = product(fn, classify, step_b, (False, False))
+    if va:
+        R.bad(fn, "entry-before-alloc", va[0][0], fn.loc(va[0][2]), trace=va[0][1])
     else:
-        R.ok(fn, "parent-entry-last", "allocation and initialisation precede the parent entry")
+        R.ok(fn, "entry-before-alloc", "allocation precedes every parent entry write (%d states)" % n)
+    if vb:
+        R.bad(fn, "entry-before-init", vb[0][0], fn.loc(vb[0][2]), trace=vb[0][1])
+    else:
+        R.ok(fn, "entry-before-init", "initialisation precedes the parent entry carrying the cluster (%d states)" % n2)
 
 
 @rule("OR4", ["C02", "C09", "C10"], floor=2,
